@@ -1,6 +1,11 @@
 (* line driver for the C12 model.  One case per line, fields separated by one space, strings as
    hex UTF-16 code units (4 hex digits per unit, "-" = empty, "~" = null pointer = empty):
-     pat type msg cat file fn fnclean line tid ptr nattr (key tval)* ntf (fmt rendered)* [implout [N|V]]
+     pat type msg cat file fn fnclean line tid ptr nattr (key tval)* ntf (fmt rendered)* [implout [N|V [seq]]]
+   seq = position of the message in a sequence formatted by ONE formatter object: 0 = the object is constructed
+   (Pattern_model.construct, with a non-zero left-over pending count: what the harness's poison call would leave
+   behind if format() did not reset the counter), k > 0 = the object returned by the previous call is used again;
+   the formatted text is then the result of the extracted object machine (call_model), not of format_pattern
+   (Properties_C12.C12_format_is_a_function_of_pattern_and_message: they are equal).
    type = Qt enum number; line = decimal int; tid/ptr = binary digits, MSB first;
    tval = s<hex> | i<decimal> | b0 | b1;  (fmt, rendered) = the environment for %{time fmt}.
    mode "check" (default): prints  <format_pattern hex> <oracle on implout: 1|0> <tokens> <active removing tokens> <documented reading hex> <1 if a time format was not in the environment> <N|V: the result must be a null / non-null string>
@@ -43,6 +48,7 @@ let show_tok t =
   let c = match t.cond with None -> "" | Some Debug -> "@debug" | Some Warning -> "@warning" | Some Critical -> "@critical"
     | Some Fatal -> "@fatal" | Some Info -> "@info" in
   k ^ show_spec t.tspec ^ c
+let kept : (qstr * fobj) option ref = ref None
 let () =
   let mode = if Array.length Sys.argv > 1 then Sys.argv.(1) else "check" in
   try while true do
@@ -70,7 +76,17 @@ let () =
         let o = if Array.length f > rest then unhex f.(rest) else [] in
         let o_null = Array.length f > rest + 1 && f.(rest + 1) = "N" in
         let msg_null = (f.(2) = "~") in
-        let a = hex (format_pattern pat m) in
+        let seq = if Array.length f > rest + 2 then int_of_string f.(rest + 2) else -1 in
+        let text =
+          if seq < 0 then format_pattern pat m
+          else begin
+            let o = (match !kept with
+              | Some (p0, o) when seq > 0 && qeq p0 pat -> o
+              | _ -> construct pat (n_of_int 3)) in
+            let (x, o') = call_model o m in
+            kept := Some (pat, o'); x
+          end in
+        let a = hex text in
         let v = if oracle_pattern_null pat m msg_null o o_null then "1" else "0" in
         let full = hex (full_text pat m) in
         print_endline (String.concat " " [a; v; string_of_int (int_of_nat (n_tokens pat)); string_of_int (int_of_nat (n_removing pat m));
